@@ -115,8 +115,8 @@ def decode_op(t):
 
 
 def strategy():
-    cls = st.integers(0, 9 * len(DEFAULTS) * 4 * 36 - 1).map(decode_class)
-    op = st.tuples(st.integers(0, 10), st.integers(0, 16 ** 4 - 1)).map(decode_op)
+    cls = worldops.packed(9 * len(DEFAULTS) * 4 * 36).map(decode_class)
+    op = st.tuples(st.integers(0, 10), worldops.packed(16 ** 4)).map(decode_op)
     return st.fixed_dictionaries({'classes': st.lists(cls, min_size=3, max_size=6),
                                   'ops': worldops.chunked(op, 40),
                                   # scale: 0, or the length of the priority walk every "readd" turns into (the same
